@@ -240,6 +240,66 @@ fn reentry_check(lines: &[String], replies: &[String], name: &str, acc: &mut Acc
     }
 }
 
+/// With tracing on, interrupting a run at boundary k (break, then CONT) must leave the
+/// collapsed trace unchanged: the records name the lines execution passes through, whatever
+/// the host does between turns - in particular while a reply is pending.
+fn trace_under_break(lines: &[String], replies: &[String], name: &str, acc: &mut Acc) {
+    let run = |break_at: Option<usize>| -> (Vec<u64>, Vec<Ev>) {
+        let mut s = Sess::new();
+        s.it.enable_tracing = true;
+        let mut hist = vec![];
+        for l in lines {
+            let e = Ev::Line(l.clone());
+            let _ = s.apply(&e);
+            hist.push(e);
+        }
+        s.recs.clear();
+        s.it.randomize(1);
+        let mut rp = replies.iter();
+        let mut ev = Ev::Line("RUN".into());
+        let mut k = 0usize;
+        loop {
+            let r = s.apply(&ev);
+            hist.push(ev.clone());
+            if r != CallResult::Ok || k > 300 {
+                break;
+            }
+            k += 1;
+            if Some(k) == break_at && s.state() != abasic_core::InterpreterState::Idle {
+                let _ = s.apply(&Ev::Break);
+                hist.push(Ev::Break);
+                ev = Ev::Line("CONT".into());
+                continue;
+            }
+            ev = match s.state() {
+                abasic_core::InterpreterState::Running => Ev::Cont,
+                abasic_core::InterpreterState::AwaitingInput => match rp.next() {
+                    Some(x) => Ev::Input(x.clone()),
+                    None => break,
+                },
+                _ => break,
+            };
+        }
+        (collapse(&s.recs.iter().filter_map(|r| if let Rec::Trace(l) = r { Some(*l) } else { None }).collect::<Vec<_>>()), hist)
+    };
+    let (base, _) = run(None);
+    for k in 1..=40 {
+        acc.runs += 1;
+        let (t, hist) = run(Some(k));
+        if t != base {
+            acc.violating += 1;
+            if acc.viol.len() < 20 {
+                acc.viol.push(Violation {
+                    signature: format!("trace changes when the run is interrupted and continued [{}]", name),
+                    detail: format!("break + CONT at boundary {}: collapsed trace {:?}; uninterrupted {:?}", k, t, base),
+                    case: case_history(&hist, false, true),
+                });
+            }
+            return;
+        }
+    }
+}
+
 pub fn run(thorough: bool) -> Report {
     let mut rep = Report::new("C17", "exploration");
     let total = Mutex::new(Acc::default());
@@ -249,6 +309,7 @@ pub fn run(thorough: bool) -> Report {
         let mut acc = Acc::default();
         check_program(&lines, &replies, None, p.name, &mut acc);
         reentry_check(&lines, &replies, p.name, &mut acc);
+        trace_under_break(&lines, &replies, p.name, &mut acc);
         merge(&total, acc);
     }
     let full = full_menu();
